@@ -780,3 +780,26 @@ def r18(rr, repo):
         rr.ob('the state returned with the set becomes the state of the next send, whatever state was left over', ok, mqm, st[-1].node if st else mq_recv,
               witness=(st[-1].args[0][-80:] if st else 'no store to self.send_state on this path') + ' | ' + p.pc_text()[-160:], key='send-state-taken-from-every-set')
     rr.floor('paths of MQ.recv that return a set', n, 1, mqm, mq_recv)
+
+
+@rule('C01.R19', "the three states of a source's set mean what the receive loop takes them to mean: `Sender.got` is 'none' for no set or a set with no frame yet, 'all' when no subscribed topic is missing, 'some' "
+                 "otherwise - decided by evaluating the property's own expression on the four shapes a set can have (no set, nothing received, partly received, complete). Every decision of recv() that "
+                 "keeps a half set, waits for its rest or hands a set out rests on these three words")
+def r19(rr, repo):
+    from ..peval import PEval, Obj, Sym, Lit, Dct, Undecided, Raised
+    za = anchors(repo)
+    got = za.RS_got
+    rets = [n for n in walk_scope(got) if isinstance(n, ast.Return) and n.value is not None]
+    if len(rets) != 1 or len([s for s in got.body if not (isinstance(s, ast.Expr) and isinstance(s.value, ast.Constant))]) != 1:
+        rr.unresolved('Sender.got is no longer a single return expression', za.mod, got, key='got-table')
+        return
+    X, Y = Sym('frame_a', nn=True), Sym('frame_b', nn=True)
+    cases = [('no set', Lit(None), 'none'), ('nothing received', Dct({'a': Lit(None), 'b': Lit(None)}), 'none'), ('partly received', Dct({'a': X, 'b': Lit(None)}), 'some'),
+             ('partly received (other topic)', Dct({'a': Lit(None), 'b': Y}), 'some'), ('complete', Dct({'a': X, 'b': Y}), 'all'), ('complete, one topic', Dct({'a': X}), 'all')]
+    for label, recvd, want in cases:
+        try:
+            v = PEval({'self': Obj({'recvd': recvd}, 'self')}).ev(rets[0].value)
+        except (Undecided, Raised) as exc:
+            rr.unresolved(f'Sender.got could not be evaluated for a set that is {label}', za.mod, rets[0], witness=str(exc)[:100], key=f'got-table|{label}')
+            continue
+        rr.ob(f"Sender.got answers {want!r} for a set that is {label}", isinstance(v, Lit) and v.v == want, za.mod, rets[0], witness=f'recvd = {recvd!r} -> {v!r}', key=f'got-table|{label}')
